@@ -34,7 +34,7 @@ KW = ["buf", "buff", "not", "and", "nand", "or", "nor", "xor", "xnor"]
 NAMES = [n for n in S.BENIGN] + ["G10gat", "n_12", "net_3", "a_b", "II7", "x_1_2",
                                  "u0_core_alu_adder_stage3_carry_lookahead_unit_generate_propagate_bit_17_n_4821",
                                  "top_cpu0_decode_pipeline_register_bank_1_write_enable_gated_clock_domain_b_n74",
-                                 "x" * 75, "y" * 76]
+                                 "x" * 75, "y" * 76, "buffer_en", "q_buff", "n_buf", "n_buff", "BUFFout", "notx", "andy", "xor1"]
 WSP = ["", " ", "  ", "\t", " \t "]
 
 
@@ -108,7 +108,7 @@ def _bench(draw, ctx):
         lines = [x for x in lines if x[0] in ("in", "out")] + [x for x in lines if x[0] not in ("in", "out")][::-1]
     if draw(st.integers(0, 3)) == 0:
         lines.insert(draw(st.integers(0, len(lines))), ["comment", draw(st.sampled_from(["# c17", "#", "# 5 inputs", "", "   "]))])
-    ws = draw(st.one_of(st.none(), st.lists(st.integers(0, 4), min_size=4, max_size=24)))
+    ws = draw(st.one_of(st.none(), st.lists(st.integers(0, 7), min_size=4, max_size=24)))
     tables = draw(st.lists(st.integers(0, (1 << 64) - 1), min_size=12, max_size=12))
     return {"kind": "read", "lines": lines, "ws": ws, "tables": tables, "lower_io": draw(st.booleans())}
 
@@ -152,6 +152,13 @@ def render(lines, ws, lower_io=False):
         gi[0] += 1
         return v
 
+    def wnl():
+        if ws is None:
+            return ""
+        v = (WSP + ["\n", "\n  ", " \n"])[ws[gi[0] % len(ws)] % (len(WSP) + 3)]
+        gi[0] += 1
+        return v
+
     out = []
     for ln in lines:
         if ln[0] == "in":
@@ -159,7 +166,8 @@ def render(lines, ws, lower_io=False):
         elif ln[0] == "out":
             out.append(f"{w()}{'output' if lower_io else 'OUTPUT'}{w()}({w()}{ln[1]}{w()}){w()}")
         elif ln[0] == "gate":
-            ops = ("," + (" " if ws is None else "")).join(f"{w()}{o}{w()}" for o in ln[3])
+            # inside the parentheses the dialect also allows line breaks
+            ops = ("," + (" " if ws is None else "")).join(f"{w()}{o}{wnl()}" for o in ln[3])
             out.append(f"{w()}{ln[1]}{' ' if ws is None else w()}={' ' if ws is None else w()}{ln[2]}({ops}){w()}")
         elif ln[0] == "dff":
             out.append(f"{w()}{ln[1]}{' ' if ws is None else w()}={' ' if ws is None else w()}{ln[2]}({w()}{ln[3]}{w()}){w()}")
